@@ -24,6 +24,9 @@ def cases(tier, seed):
         for d1 in orders:
             for d2, nb in ((1, 0), (2, 0), (1, 1), (2, 1), (3, 0)):
                 cs.append({'scen': 'c18_matmul', 's': {'k1': k1, 'k2': 'dense', 'd1': d1, 'd2': d2, 'batch': nb, 'B': B}})
+    # operators of order 3 against dense operands of lower / equal / higher order (trailing-dimension matching must not broadcast a short shape)
+    for d2, nb in ((1, 0), (2, 0), (3, 0), (1, 1), (2, 1)):
+        cs.append({'scen': 'c18_matmul', 's': {'k1': 'ttm', 'k2': 'dense', 'd1': 3, 'd2': d2, 'batch': nb, 'B': 2}})
     # dot
     for k1, k2 in itertools.product(('tt', 'ttm'), repeat=2):
         for d1, d2 in itertools.product(orders, repeat=2):
@@ -94,6 +97,9 @@ def cases(tier, seed):
         cs.append({'scen': 'c18_unary_args', 's': {'what': 'reshape', 'd': d, 'dt': dt, 'B': 2}})
     for d in (1, 2):
         cs.append({'scen': 'c18_unary_args', 's': {'what': 'to_qtt', 'd': d, 'B': 4 if d == 1 else 3, 'class_check': True}})
+    cs.append({'scen': 'c18_unary_args', 's': {'what': 'to_qtt', 'd': 1, 'B': 9, 'mode_size': 3, 'class_check': True}})
+    cs.append({'scen': 'c18_unary_args', 's': {'what': 'to_qtt', 'd': 2, 'B': 6, 'mode_size': 3, 'class_check': True}})
+    cs.append({'scen': 'c18_unary_args', 's': {'what': 'to_qtt', 'd': 1, 'B': 8, 'mode_size': 4, 'class_check': True}})
     for d, do in [(2, 1), (2, 2), (3, 2), (3, 1), (2, 3)]:
         cs.append({'scen': 'c18_unary_args', 's': {'what': 'qtt_to_tens', 'd': d, 'do': do, 'B': 2}})
     for d in (1, 2, 3):
@@ -152,7 +158,7 @@ def sig(case, label):
     s = case['s']
     sc = case['scen']
     parts = [sc]
-    for k in ('what', 'op', 'k1', 'k2', 'kind', 'arg', 'kx', 'kA', 'ky', 'alias', 'form'):
+    for k in ('what', 'op', 'k1', 'k2', 'kind', 'arg', 'kx', 'kA', 'ky', 'alias', 'form', 'mode_size'):
         if k in s:
             parts.append('%s=%s' % (k, s[k]))
     if sc in ('c18_binop', 'c18_matmul', 'c18_dot'):
